@@ -41,7 +41,7 @@ def new_value(env, spec, e):
     if kind == "num":
         _, obj, param, val = e
         d, un = param_info(spec, obj, param)
-        un = env.units.get(f"{obj}.{param}", un)
+        un = env.unit_of(f"{obj}.{param}", un)
         return lambda objs: SourceValue(val * u(un))
     if kind == "fixed":
         _, obj, val = e
